@@ -13,6 +13,8 @@ import (
 
 func init() {
 	register(&PropertyCheck{ID: "C03", Level: "other", Run: checkC03, Canaries: []Canary{
+		{Name: "decoder-rejects-the-highest-defined-reason-code", Rule: "R3.4", Where: "Disconnect", Edits: []Edit{{"disconnect.go", "\tb.get(&p.reasonCode)\n", "\tb.get(&p.reasonCode)\n\tif b.err == nil && p.reasonCode >= 0xA2 {\n\t\tb.err = ErrMissingData\n\t}\n"}}},
+		{Name: "pair-decoder-rejects-an-empty-key", Rule: "R3.3", Where: "(*UserProp).UnmarshalBinary", Edits: []Edit{{"wiretypes.go", "\tv[0] = string(key)\n", "\tif len(key) == 0 {\n\t\treturn unmarshalErr(v, \"key\", \"empty\")\n\t}\n\tv[0] = string(key)\n"}}},
 		{Name: "decoder-rejects-valid-option-bytes", Rule: "R3.4", Where: "Subscribe", Edits: []Edit{{"subscribe.go", "\t\tb.get(&f.options)\n", "\t\tb.get(&f.options)\n\t\tif b.err == nil && f.options > bits(OptRetain2) {\n\t\t\tb.err = ErrMissingData\n\t\t}\n"}}},
 		{Name: "authdata-removed-from-auth-map", Rule: "R3.1", Where: "Auth", Edits: []Edit{{"auth.go", "\t\tAuthData:     func() wireType { return &p.authData },\n", ""}}},
 		{Name: "descending-ids-rejected", Rule: "R3.2", Where: "ConnAck", Edits: []Edit{{"buffer.go", "\tvar id Ident\n\tfor b.i < end {\n\t\tb.get(&id)", "\tvar id, last Ident\n\tfor b.i < end {\n\t\tlast = id\n\t\tb.get(&id)\n\t\tif id < last {\n\t\t\tb.err = fmt.Errorf(\"properties out of order\")\n\t\t\treturn\n\t\t}"}}},
@@ -356,6 +358,34 @@ func (p *Prog) specFrames(tn string) []specFrame {
 		}
 		out = append(out, specFrame{v.name, toks, exp})
 	}
+	// every reason code the specification defines for this packet type, in a frame without properties
+	vbi0 := wireToken{"vbi", 1, sv{k: 'i', i: 0}, "property length"}
+	codes := specReasonCodes[tn]
+	switch tn {
+	case "SubAck", "UnsubAck":
+		toks := []wireToken{u16("packet id", 77), vbi0}
+		var rs []string
+		for _, rc := range codes {
+			toks = append(toks, byt("reason code", rc))
+			rs = append(rs, fmt.Sprint(rc))
+		}
+		out = append(out, specFrame{"no properties, every defined reason code in the list", toks, map[string]string{"PacketID()": "77", "ReasonCodes()": "[" + strings.Join(rs, " ") + "]"}})
+	default:
+		for _, rc := range codes {
+			var toks []wireToken
+			switch tn {
+			case "ConnAck":
+				toks = []wireToken{byt("acknowledge flags", 0), byt("reason code", rc), vbi0}
+			case "PubAck", "PubRec", "PubRel", "PubComp":
+				toks = []wireToken{u16("packet id", 77), byt("reason code", rc)} // remaining length 3
+			case "Disconnect":
+				toks = []wireToken{byt("reason code", rc)} // remaining length 1
+			case "Auth":
+				toks = []wireToken{byt("reason code", rc), vbi0}
+			}
+			out = append(out, specFrame{fmt.Sprintf("no properties, reason code %#02x", rc), toks, map[string]string{"ReasonCode()": fmt.Sprint(rc)}})
+		}
+	}
 	return out
 }
 
@@ -481,8 +511,21 @@ func checkC03(p *Prog, c *Check) {
 		if nt := namedOf(pt.Elem()); nt != nil && nt.Obj().Name() == "Ident" {
 			kind = "byte"
 		}
-		if kind != "byte" && kind != "u16" && kind != "u32" && kind != "lp" {
+		if kind != "byte" && kind != "u16" && kind != "u32" && kind != "lp" && kind != "pair" && kind != "raw" {
 			continue
+		}
+		// locals that a wire decoder called from here decodes into (key and value of a pair)
+		decodedLocal := map[ssa.Value]bool{}
+		for _, b := range d.Blocks {
+			for _, ins := range b.Instrs {
+				if call, ok := ins.(*ssa.Call); ok && len(call.Call.Args) == 2 {
+					if sc := call.Call.StaticCallee(); sc != nil && p.isWireDecoder(sc) {
+						if al, ok := call.Call.Args[0].(*ssa.Alloc); ok {
+							decodedLocal[al] = true
+						}
+					}
+				}
+			}
 		}
 		var data *ssa.Parameter
 		for _, prm := range d.Params[1:] {
@@ -499,6 +542,12 @@ func checkC03(p *Prog, c *Check) {
 				if x.X == ssa.Value(d.Params[0]) {
 					return true // the value just decoded into the receiver
 				}
+				if decodedLocal[x.X] {
+					return true // a component decoded by another wire decoder
+				}
+				if ia, ok := x.X.(*ssa.IndexAddr); ok && ia.X == ssa.Value(d.Params[0]) {
+					return true // an element of the receiver (pair)
+				}
 			case *ssa.Call:
 				if sc := x.Call.StaticCallee(); sc != nil && strings.Contains(fullName(sc), "bigEndian).Uint") {
 					return true
@@ -507,9 +556,26 @@ func checkC03(p *Prog, c *Check) {
 			return false
 		}
 		bad := ""
+		// for a composite decoder (pair) the error result of a component decoder is not content: the dependency is
+		// not followed into the calls of wire decoders
+		seenStop := func() map[ssa.Value]bool {
+			m := map[ssa.Value]bool{}
+			if kind == "pair" || kind == "raw" {
+				for _, b := range d.Blocks {
+					for _, ins := range b.Instrs {
+						if call, ok := ins.(*ssa.Call); ok {
+							if sc := call.Call.StaticCallee(); sc != nil && p.isWireDecoder(sc) {
+								m[call] = true
+							}
+						}
+					}
+				}
+			}
+			return m
+		}
 		for _, b := range d.Blocks {
 			iff, ok := terminator(b).(*ssa.If)
-			if !ok || !dependsOn(iff.Cond, isContent, map[ssa.Value]bool{}) {
+			if !ok || !dependsOn(iff.Cond, isContent, seenStop()) {
 				continue
 			}
 			if kind != "lp" {
